@@ -14,3 +14,8 @@ claim("C06", "model_checking",
       "Every attacker stream of the grammar up to depth 2 (quick) / 3 (thorough) is run against the real engine configured with PLAIN, CURVE or NOISE_XX in both roles, with ALLOW_ZMTP2 on and off; the engine must never report HandshakeComplete nor deliver a message except on the one stream family that is a genuine completion (PLAIN connector accepting a PLAIN server).",
       "attacker has no credentials/keys (tokens drawn from the stated alphabet, crypto tokens are well-formed-but-unkeyed); session actor wiring above the engine is covered by C04/C07; CURVE/NOISE listeners accepting any well-formed client key is by design and out of scope",
       "5/C06")
+claim("C07", "model_checking",
+      "E1: exhaustive enumeration of every single mutation (thorough: pairs) of every valid handshake+data transcript at every byte position x delivery modes x MAXMSGSIZE values against the real ZmtpEngine (CURVE/NOISE/PLAIN against a live partner engine), all 256 values at each greeting offset, all 65536 two-byte data-phase headers, parser header extremes",
+      "Every mutated stream in the stated operator family is executed on the real engine/decoders with panics caught: the engine must not panic, must pair every PeerError with Closed, must reject limit+1 at the header and deliver exactly-limit, and must never deliver more than the honest partner sent under CURVE/NOISE.",
+      "mutation operators are a fixed family (byte := 00|FF|7F, ^01, ^80, truncate, length-field extremes, unit dup/drop/swap), not all byte strings; handshake-interval pacing, slot release and locality need the session actor and are checked by the E3 sub-checks (added with the world explorer); io_uring handler is covered under C20",
+      "5/C07")
